@@ -318,6 +318,73 @@ Proof.
   - rewrite !getz_suffix in H3 by lia. replace (lpos z + (n + 1)) with (lpos z + n + 1) in H3 by lia. exact H3.
 Qed.
 
+(* ---- scan_quoted ---------------------------------------------------------------------------------- *)
+Lemma scan_quoted_step pi delim c t :
+  scan_quoted pi delim (c :: t) =
+  (if c =? delim then Some 0
+   else te <- (if pi then tag_end true c t else Some false) ;;
+        if (c =? 0) || te then Some 0 else n <- scan_quoted pi delim t ;; Some (1 + n)).
+Proof. reflexivity. Qed.
+
+(* the byte the quoted-value loop stops at: the quote, NUL, or (in a processing instruction) the '?' of "?>" *)
+Definition quoted_stop (pi : bool) (delim c c1 : Z) : bool :=
+  (c =? delim) || (c =? 0) || (pi && (c =? 63) && (c1 =? 62)).
+
+Lemma scan_quoted_spec pi delim l n : scan_quoted pi delim l = Some n ->
+  0 <= n < len l /\
+  (forall i, 0 <= i < n -> quoted_stop pi delim (getz l i) (getz l (i + 1)) = false) /\
+  quoted_stop pi delim (getz l n) (getz l (n + 1)) = true.
+Proof.
+  revert n. induction l as [|c t IH]; intros n H; [discriminate|].
+  rewrite scan_quoted_step in H. rewrite len_cons. pose proof (len_nonneg t).
+  assert (G0 : getz (c :: t) (0 + 1) = getz t 0) by (replace (0 + 1) with (1 + 0) by lia; apply getz_cons_succ; lia).
+  destruct (Z.eqb_spec c delim) as [E|E].
+  { assert (n = 0) by congruence. subst n. split; [lia|]. split; [intros; lia|].
+    rewrite getz_cons_0. unfold quoted_stop. subst c. rewrite Z.eqb_refl. reflexivity. }
+  destruct (if pi then tag_end true c t else Some false) as [te|] eqn:Hte; [|discriminate]. cbn [option_bind] in H.
+  assert (Ete : te = pi && (c =? 63) && (getz t 0 =? 62)).
+  { destruct pi; [|injection Hte as <-; reflexivity]. apply tag_end_spec in Hte. rewrite Hte. reflexivity. }
+  assert (Hst : quoted_stop pi delim c (getz t 0) = ((c =? 0) || te)).
+  { unfold quoted_stop. rewrite Ete. destruct (Z.eqb_spec c delim); [congruence|]. cbn [orb]. reflexivity. }
+  rewrite <- Hst in H. destruct (quoted_stop pi delim c (getz t 0)) eqn:Hs.
+  - assert (n = 0) by congruence. subst n. split; [lia|]. split; [intros; lia|]. rewrite getz_cons_0, G0. exact Hs.
+  - destruct (scan_quoted pi delim t) as [m|] eqn:Hm; [|discriminate]. cbn [option_bind] in H.
+    assert (n = 1 + m) by congruence. subst n. destruct (IH m eq_refl) as (H1 & H2 & H3).
+    split; [lia|]. split.
+    + intros i Hi. destruct (Z.eq_dec i 0) as [->|]; [rewrite getz_cons_0, G0; exact Hs|].
+      rewrite (getz_cons_pos c t i) by lia. rewrite (getz_cons_pos c t (i + 1)) by lia.
+      replace (i + 1 - 1) with (i - 1 + 1) by lia. apply H2. lia.
+    + rewrite getz_cons_succ by lia. replace (1 + m + 1) with (1 + (m + 1)) by lia.
+      rewrite getz_cons_succ by lia. exact H3.
+Qed.
+
+Lemma scan_quoted_total pi delim a : exists n, scan_quoted pi delim (a ++ [0]) = Some n.
+Proof.
+  induction a as [|c a (n & IH)]; cbn [app]; rewrite scan_quoted_step.
+  - destruct (0 =? delim); [eauto|]. destruct pi; cbn; eauto.
+  - destruct (c =? delim); [eauto|].
+    assert (exists te, (if pi then tag_end true c (a ++ [0]) else Some false) = Some te) as (te & ->).
+    { destruct pi; [|eauto]. apply tag_end_total. destruct a; discriminate. }
+    cbn [option_bind]. rewrite IH. cbn [option_bind]. destruct ((c =? 0) || te); eauto.
+Qed.
+
+Lemma quoted_stop_false_nz pi delim c c1 : quoted_stop pi delim c c1 = false -> c <> 0.
+Proof. unfold quoted_stop. intros H ->. rewrite orb_true_r in H. discriminate. Qed.
+
+Lemma scan_quoted_lx pi delim z : lx_wf z ->
+  exists n, scan_quoted pi delim (suffix z) = Some n /\ 0 <= n /\ lpos z + n <= lx_len z /\
+    (forall i, lpos z <= i < lpos z + n -> getz (lbuf z) i <> 0) /\
+    quoted_stop pi delim (getz (lbuf z) (lpos z + n)) (getz (lbuf z) (lpos z + n + 1)) = true.
+Proof.
+  intros H. destruct (wf_suffix z H) as (a & Ha & Hl). pose proof (wf_range z H) as Hr.
+  destruct (scan_quoted_total pi delim a) as (n & Hn). rewrite <- Ha in Hn. exists n. split; [exact Hn|].
+  destruct (scan_quoted_spec _ _ _ _ Hn) as (H1 & H2 & H3). rewrite len_suffix in H1 by assumption.
+  split; [lia|]. split; [lia|]. split.
+  - intros i Hi. specialize (H2 (i - lpos z) ltac:(lia)). apply quoted_stop_false_nz in H2.
+    rewrite getz_suffix in H2 by lia. replace (lpos z + (i - lpos z)) with i in H2 by lia. exact H2.
+  - rewrite !getz_suffix in H3 by lia. replace (lpos z + (n + 1)) with (lpos z + n + 1) in H3 by lia. exact H3.
+Qed.
+
 (* ---- scan_until ------------------------------------------------------------------------------------ *)
 Lemma scan_until_step pat c t :
   scan_until pat (c :: t) =
